@@ -114,7 +114,7 @@ def make_coq(targets=None):
     mk, proj = os.path.join(COQDIR, "Makefile"), os.path.join(COQDIR, "_CoqProject")
     if not os.path.exists(mk) or os.path.getmtime(mk) < os.path.getmtime(proj):
         sh("coq_makefile -f _CoqProject -o Makefile", cwd=COQDIR, check=True)
-    cmd = ["make", "-j%d" % NCPU]
+    cmd = ["make", "-k", "-j%d" % NCPU]      # -k: a broken proof must not keep the judges from being built
     if targets:
         cmd += targets
     rc, out = sh(cmd, cwd=COQDIR, timeout=3000)
@@ -126,8 +126,16 @@ def prep(prop=None):
     failing file; the caller decides how to report."""
     with Lock("prep"):
         build_harness()
-        run_translator()
+        tfail = None
+        try:
+            run_translator()
+        except PrepError as e:
+            # the source left the shape the translator recognises: the regenerated tables are stale, nothing proved over them
+            # is shown to hold any more.  Go on with the tables of the last successful run to search for a failing input.
+            tfail = e.output
         rc, out = make_coq()
+        if tfail is not None:
+            return False, {"stage": "translator", "failing": ("translator (Gen/*.v not regenerated)", ""), "output": tfail[-6000:]}
         if rc != 0:
             m = re.findall(r'File "\./(theories/[^"]+)", line (\d+)', out)
             return False, {"stage": "coq-make", "failing": m[-1] if m else None, "output": out[-6000:]}
